@@ -2460,7 +2460,7 @@ class BDD(dd._abc.BDD[_Ref]):
             else:
                 j = self.add_var(var)
             level_map[i] = j
-        umap = dict()
+        umap = {1: 1}
         for u in succ:
             # already added ?
             if u in umap:
